@@ -116,6 +116,12 @@ def gen_merge_case(r, tier='quick', force=None):
     # differs from the extensions' none of the per-slice data is used
     if r.random() < 0.12:
         case['result_affine'] = 'rotated'
+    # some later inputs were made without a slice dimension (legal: slice_dim None, no per-slice
+    # data); their values are widened with the slice count of the result
+    if n >= 2 and sd is not None and kind in ('time', 'vector') and r.random() < 0.15:
+        case['sd_none'] = sorted(r.sample(range(1, n), r.randint(1, n - 1)))
+        for i in case['sd_none']:
+            case['inputs'][i] = [e for e in case['inputs'][i] if not e[1].endswith('slices')]
     return case
 
 
@@ -143,8 +149,8 @@ def result_affine(case):
 
 
 def build_inputs(case):
-    return [M.build_ext(case['in_shape'], case['sd'], [(k, c, copy.deepcopy(v)) for k, c, v in ents],
-                        affine=case_affine(case, i))
+    return [M.build_ext(case['in_shape'], None if i in case.get('sd_none', []) else case['sd'],
+                        [(k, c, copy.deepcopy(v)) for k, c, v in ents], affine=case_affine(case, i))
             for i, ents in enumerate(case['inputs'])]
 
 
@@ -206,8 +212,8 @@ def _valid(e):
 
 def model_merge_req(case, exts):
     ms = [M.ext_to_model(e) for e in exts]
-    if any(x is None for x in ms):
-        return None
+    if any(x is None for x in ms) or case.get('sd_none'):
+        return None          # inputs with differing slice dimensions are outside the model
     return {'op': 'from_sequence', 'exts': ms, 'dim': case['dim'], 'sd': None,
             'use': normals_use(exts, affine=result_affine(case))}
 
